@@ -748,8 +748,23 @@ func patchOverlay(patchFile string) (map[string][]byte, error) {
 // contain a file the change touches, and records which obligations fail.
 // /repo itself is not modified. Output: one line per change, also written to
 // seeded/RESULTS.txt.
+// cmdEquivTest: the must-stay-quiet corpus. Every change under
+// /verif/equivalents/ keeps all properties intact (renamed variables, reordered
+// independent statements, added logging, ...); no check may report anything
+// for it. Exit status 1 if one does.
+func cmdEquivTest(args []string) int {
+	seedRoot = "/verif/equivalents/E*-*"
+	defer func() { seedRoot = "/verif/seeded/C*-*" }()
+	equivMode = true
+	defer func() { equivMode = false }()
+	return cmdTrySeeds(args)
+}
+
+var seedRoot = "/verif/seeded/C*-*"
+var equivMode = false
+
 func cmdTrySeeds(args []string) int {
-	dirs, _ := filepath.Glob("/verif/seeded/C*-*")
+	dirs, _ := filepath.Glob(seedRoot)
 	sort.Slice(dirs, func(i, j int) bool { return natLess(filepath.Base(dirs[i]), filepath.Base(dirs[j])) })
 	lv, _ := os.ReadFile("/verif/props/levels.json")
 	levels := map[string]json.RawMessage{}
@@ -833,7 +848,7 @@ func cmdTrySeeds(args []string) int {
 				}
 			}
 			if len(problems) > 0 {
-				hits = append(hits, id+":contract-integrity")
+				hits = append(hits, id+":contract-integrity ("+truncate(problems[0], 160)+")")
 			}
 			os.RemoveAll(outDir)
 		}
@@ -848,6 +863,17 @@ func cmdTrySeeds(args []string) int {
 		line := fmt.Sprintf("%s: %s | %s", seed, verdict, strings.Join(hits, " ; "))
 		fmt.Println(line)
 		lines = append(lines, line)
+	}
+	if equivMode {
+		alarms := len(lines) - missed
+		if len(args) == 0 {
+			os.WriteFile("/verif/equivalents/RESULTS.txt", []byte(strings.ReplaceAll(strings.ReplaceAll(strings.Join(lines, "\n"), ": MISSED", ": QUIET"), ": CAUGHT", ": ALARM")+"\n"), 0o644)
+		}
+		fmt.Printf("property-preserving changes: %d, false alarms: %d\n", len(lines), alarms)
+		if alarms > 0 {
+			return 1
+		}
+		return 0
 	}
 	if len(args) == 0 {
 		os.WriteFile("/verif/seeded/RESULTS.txt", []byte(strings.Join(lines, "\n")+"\n"), 0o644)
